@@ -1,1 +1,2 @@
 import Driver.Codec
+import Driver.Ops2
